@@ -6,7 +6,7 @@
    under ANY two parameter sets - KEEP_DEPENDENCIES on or off, any flush oracle, any priorities -
    namely the sequential value.  The trace-level statement (same flushes, same context events) is
    not proved; it rests on the correspondence. *)
-From Asynq Require Import Machine Seq proofs.MachineC08 proofs.MachineC01.
+From Asynq Require Import Machine Seq proofs.MachineC08 proofs.MachineC01 proofs.MachineC20.
 
 Theorem C20_outcome_independent_of_options_tree : forall P P' p n n' o o',
   pointwise P -> pointwise P' -> tree p ->
@@ -17,8 +17,5 @@ Theorem C20_outcome_independent_of_options_tree : forall P P' p n n' o o',
   no_unwind P n (start h s1) -> c_mode (run P n (start h s1)) = MDone o ->
   no_unwind P' n' (start h' s1') -> c_mode (run P' n' (start h' s1')) = MDone o' ->
   o = o'.
-Proof.
-  intros P P' p n n' o o' HP HP' Ht. cbn zeta. intros Hn Hm Hn' Hm'.
-  rewrite (async_eq_seq_tree P p n o HP Ht Hn Hm), (async_eq_seq_tree P' p n' o' HP' Ht Hn' Hm'). reflexivity.
-Qed.
+Proof. exact outcome_independent_of_options_tree. Qed.
 Print Assumptions C20_outcome_independent_of_options_tree.
